@@ -2357,17 +2357,16 @@ class RedunBackendDb(RedunBackend):
                 )
             )
 
-            # Restrict to same context. A call without context only matches CallNodes
-            # that were recorded without context.
+            # Restrict to same context. A call without context only matches Jobs that ran
+            # without context. The CallNode cannot tell: it is content-addressed, so a Job
+            # without context may share it with (and see the context tag of) a Job with context.
             if context_hash:
                 call_nodes = call_nodes.join(Tag, Tag.entity_id == CallNode.call_hash).filter(
                     Tag.key == CONTEXT_KEY, Tag.value == sa_cast(context_hash, JSON)
                 )
             else:
                 call_nodes = call_nodes.filter(
-                    ~exists().where(
-                        and_(Tag.entity_id == CallNode.call_hash, Tag.key == CONTEXT_KEY)
-                    )
+                    ~exists().where(and_(Tag.entity_id == Job.id, Tag.key == CONTEXT_KEY))
                 )
 
             call_node = call_nodes.order_by(Job.start_time.desc()).first()
